@@ -9,6 +9,7 @@ import (
 	"strings"
 
 	"github.com/gkampitakis/go-snaps/internal/verifhook/sched"
+	"github.com/kr/pretty"
 )
 
 // vfTestExec is one execution of a test: its calls in order, then end-of-test.
@@ -28,10 +29,17 @@ type vfCallObs struct {
 	ErrText string
 }
 
-// vfFormat is the reference "formatted value" for the APIs whose format is
-// the identity on strings (MatchSnapshot / MatchStandaloneSnapshot with one
-// string argument, MatchYAML with string or []byte input).
-func vfFormat(cl vfCall) string { return cl.Val }
+// vfFormat is the reference "formatted value": kr/pretty's Sprint (the
+// documented formatter) for MatchSnapshot / MatchStandaloneSnapshot, the input
+// text itself for MatchYAML with string or []byte input.
+func vfFormat(cl vfCall) string {
+	if cl.API == "snap" || cl.API == "ssnap" {
+		// MatchSnapshot / MatchStandaloneSnapshot store pretty.Sprint(value): the identity on most
+		// strings, but e.g. tab characters are consumed by the formatter's tabwriter
+		return pretty.Sprint(cl.Val)
+	}
+	return cl.Val
+}
 
 // vfRunTests executes the test executions sequentially on the real code and on
 // the model in lock-step.
